@@ -28,7 +28,16 @@ RULE = ("library: 1-3 molecule types of 1-12 atoms, 1-4 CG beads per molecule "
         "oversize-rejection case; distinct = hash of the unwrapped parents "
         "and weights. executable: csg_map runs over gro->gro, gro->dump, "
         "dump->dump, dump->gro with 1-5 frames of per-frame varying boxes; "
-        "one evaluation = one CG bead of one written frame compared.")
+        "one evaluation = one CG bead of one written frame compared. reuse "
+        "families (library): one TopologyMap serves all frames of a case - "
+        "frames with the same step/time as the previous one, increasing and "
+        "repeating steps, box type changing between frames on the same "
+        "Topology, positions/velocities/forces appearing and disappearing "
+        "between frames, the same frame mapped twice (bit-identical), beads "
+        "sharing one <map> with d, a second CG topology created by the same "
+        "CGEngine (from the same or a twin atomistic topology) must map "
+        "bit-identically; executable: half of the dump trajectories carry "
+        "one TIMESTEP in every frame (gro frames always have step 0).")
 
 PAIRS = [("gro", "gro"), ("gro", "dump"), ("dump", "dump"), ("dump", "gro")]
 
@@ -268,7 +277,8 @@ def write_dump(path, frames, with_vel, with_force, rng):
     o = []
     for fi, fr in enumerate(frames):
         n = len(fr["pos"])
-        o += ["ITEM: TIMESTEP", str(1000 * fi + 7), "ITEM: NUMBER OF ATOMS",
+        o += ["ITEM: TIMESTEP", str(fr.get("step", 1000 * fi + 7)),
+              "ITEM: NUMBER OF ATOMS",
               str(n), "ITEM: BOX BOUNDS pp pp pp"]
         lo = fr.get("lo", [0.0, 0.0, 0.0])
         for k in range(3):
@@ -295,7 +305,7 @@ def write_dump(path, frames, with_vel, with_force, rng):
     open(path, "w").write("\n".join(o) + "\n")
 
 
-def make_case(rng, d, infmt, outfmt, reject):
+def make_case(rng, d, infmt, outfmt, reject, rng2=None):
     """writes all input files of one csg_map run into directory d"""
     os.makedirs(d)
     types = gen_system(rng)
@@ -323,6 +333,13 @@ def make_case(rng, d, infmt, outfmt, reject):
         else:
             fr["nine"] = rng.random() < 0.3
         frames.append(fr)
+    if infmt == "dump" and rng2 is not None and rng2.random() < 0.5:
+        # every frame carries the same TIMESTEP (as all .gro frames do: the
+        # reader leaves step 0): a map that is skipped for a "known" step
+        # would write stale beads
+        st = rng2.choice([0, 7, 123456])
+        for fr in frames:
+            fr["step"] = st
     trj = os.path.join(d, "traj." + infmt)
     if infmt == "gro":
         write_gro(trj, frames, with_vel)
@@ -478,8 +495,9 @@ def run(chk):
             rng = random.Random(chk.seed * 1000003 + k)
             infmt, outfmt = PAIRS[k % 4]
             reject = (k // 4) % 6 == 5
+            rng2 = random.Random(chk.seed * 7919 + 31 * k + 5)
             ecases.append(make_case(rng, os.path.join(work, "exe%04d" % k),
-                                    infmt, outfmt, reject))
+                                    infmt, outfmt, reject, rng2))
         jobs += [lambda c=c: run_case(c, exe, env) for c in ecases]
         results = vf.run_parallel(jobs)
         for s, res in enumerate(results[:shards]):
@@ -496,12 +514,15 @@ def run(chk):
         "(DESIGN.md interpretation)",
         "frames whose largest first-parent distance is within 1e-9*|input| "
         "of half the shortest box height are don't-care",
-        "ellipsoidal beads are judged for position/velocity/force only "
-        "(orientation and mass are outside the design; a mass mismatch is "
-        "counted as an observation)",
+        "ellipsoidal beads: the orientation vectors are outside the design "
+        "(position, velocity, force and mass are judged; mass under the key "
+        "lib/ellipsoid/mass)",
         "executable level: tolerance = half a unit of the last printed digit "
         "+ propagated rounding; only the box diagonal is compared (tilt "
         "factors in written files belong to C08)",
+        "when the parents carry no positions/velocities/forces in a frame "
+        "the statement defines no value: that the CG bead keeps the value "
+        "and the 'set' flag of an earlier frame is counted as an observation",
         "mapping files with d != 0 where w == 0 (refused by the library by "
         "design) and ellipsoidal beads with fewer than three parents are "
         "not generated"]
